@@ -586,7 +586,7 @@ def check_hcb_chain(idx: Index, rep: Report, tier: str):
     rule = "K9.hcb-chain"
     f = idx.function(f"{HCB}::hard_core_boson_operator")
     n = 0
-    for n_mos, seed in ((2, 11), (2, 12), (3, 13)) + (((3, 14), (4, 15)) if tier == "thorough" else ()):
+    for n_mos, seed in ((2, 11), (2, 12), (3, 13)) + (((3, 14), (3, 15)) if tier == "thorough" else ()):
         terms = _restricted_hamiltonian(n_mos, seed)
         try:
             bos = hcb_encode(idx, terms)
